@@ -18,7 +18,7 @@ BUDGET = {"quick": 60, "thorough": 900}
 MIN_BUDGET = {"quick": 20, "thorough": 60}
 RULE = ("tables with 1-3 snapshots and 1-4 data files in the current one (local and CAS-S3); for ONE file reachable from "
         "the current snapshot (current metadata file, manifest list, each manifest, each data file) and ONE damage "
-        "(delete; truncate to 0 / 3 / 10 / 25% / 50% / start of footer / len-8 / len-1 bytes; whole-file noise; single "
+        "(delete; truncate to 0 / 3 / 10 / 25% / 50% / start of footer / len-8 / len-1 bytes; whole-file noise; replaced by the JSON documents {} / {\"format\":...} which are no file of that kind; single "
         "byte flips at 7 positions and inside the words 'parquet' / 'data/' / 'manifest_' of an entry; content swapped with a sibling of the same kind) every read API and option is "
         "run through a fresh handle: scan, scan(parallel=2), scan_batches(1|3|1000), iter_records, row_count, column "
         "projection, filter, verify_checksums True / False / env-off - once through fresh handles and once through ONE "
@@ -48,7 +48,7 @@ APIS: List[Dict[str, Any]] = [
 ]
 DAMAGES = ["delete", "trunc0", "trunc3", "trunc10", "trunc25", "trunc50", "truncfoot", "trunc_m8", "trunc_m1", "noise",
            "flip0", "flip5", "flip25", "flip50", "flip75", "flip_m5", "flip_m1", "swap", "flipword:parquet",
-           "flipword:parquet", "flipword:data/", "flipword:manifest_"]
+           "flipword:parquet", "flipword:data/", "flipword:manifest_", "json_empty", "json_other"]
 
 
 def gen(rng: random.Random, tier: str, idx: int) -> dict:
@@ -100,6 +100,10 @@ def _damaged(data: bytes, how: str, sibling: Optional[bytes]) -> Optional[bytes]
         return data[: max(0, min(n, k))]
     if how == "noise":
         return bytes((i * 73 + 29) % 256 for i in range(max(16, n)))
+    if how == "json_empty":
+        return b"{}"          # well-formed JSON that is not a file of this kind (no entries key, no snapshots)
+    if how == "json_other":
+        return b'{"format": "unknown", "entries": 3}'
     if how.startswith("flipword:"):
         word = how.split(":", 1)[1].encode()
         i = data.rfind(word)
